@@ -21,40 +21,40 @@ NA = {
 # property -> (level category, level text, level note, technique, design ref)
 CLAIMED = {
  "C18": ("exploration",
-         "N = 2..6 seeded caller tasks (writers, readers, encoders, decoders, Marshal/Unmarshal, table and catalog helpers), each with its own ion-go objects, share shared symbol tables, Adjust()ed views, one catalog, the system table and Go struct types. Part A: the tasks run as parked goroutines under a seeded scheduler that picks who runs next at every Source.Read / Sink.Write / catalog lookup (one pick list = one replayable interleaving; six scheduling policies); each task's output must equal its solo baseline and a public-API digest of every shared object must be unchanged at every yield and at the end. Part B: the same seeded task sets run free (no harness synchronisation between start and join) in a -race build at GOMAXPROCS 16 and 2; any race report with an ion-go frame fails the check.",
-         "Part A cannot see data races (a parked hand-off is a happens-before edge); part B's schedule is the Go runtime's and is not controlled, its oracle is the race detector's happens-before analysis (bounded history, can miss). Solo baseline is ion-go's own output.",
-         "deterministic simulation: seeded parked-goroutine scheduler over seam-call yield points with solo-baseline and shared-state-digest oracles; plus the same seeded workloads free-running under the Go race detector",
-         "DESIGN.md section 3 C18"),
+         "2..9 seeded caller tasks (writers \u2014 some with caller mistakes \u2014, readers and decoders of symbol-table histories and of general documents, encoders, Marshal/Unmarshal of 20 static and many dynamic Go types, table / catalog / token helpers, the owner of a symbol table builder), each with its own ion-go objects, share shared symbol tables, Adjust()ed views, slices of tables, a token list, a built local table, one catalog (often skewed), the system table and Go types. Part A: the tasks run as parked goroutines under a seeded scheduler that picks who runs next at every Source.Read / Sink.Write / catalog lookup (one pick list = one replayable interleaving; six policies); each task's output must equal its solo baseline \u2014 on one index in 16 (quick: 32) also the baseline taken in a fresh process \u2014 and a public-API digest of every shared object must be unchanged at every yield and at the end. Part B: the same seeded task sets run free in a -race build in 160 short-lived processes (each starting with a cold-start burst) at GOMAXPROCS 16 and 2; any race report attributable to package ion fails the check.",
+         "Part A cannot see data races (a parked hand-off is a happens-before edge); part B's schedule is the Go runtime's and is not controlled, its oracle is the race detector's happens-before analysis (bounded history, can miss). Solo baselines are ion-go's own output.",
+         "deterministic simulation: seeded parked-goroutine scheduler over seam-call yield points with solo-baseline (in-process and fresh-process) and shared-state-digest oracles; plus the same seeded workloads free-running under the Go race detector",
+         "DESIGN.md section 3 C18 and section 7"),
  "C06": ("exploration",
-         "Seeded simulation of a damaged stored stream read by an arbitrary caller: valid and hostile-producer documents (typed nulls / wrong types / extreme numbers in every symbol-table slot, $n and $0 symbols) hit by 0..3 stored-medium faults (bit flip, byte set, zeroed / lost / duplicated / spliced block, truncation, length / exponent / ID fields replaced by boundary values through the byte map), plus every byte string of length <= 3 over a 24-byte alphabet; each driven by seeded random call sequences over all Reader methods, a full traversal, Decoder.Decode to exhaustion and DecodeTo into a zoo of 68 Go target types (named key, byte and int types, embedded pointers to unexported structs, nested pointers, unsupported kinds), under whole and chunked simulated delivery, with panic, reads-after-end, progress, allocation, worker-death (write-ahead + isolated re-run) and wall-clock watchdogs.",
-         "Returned errors are always acceptable (acceptance/rejection is C07). Allocation bound: 32 MiB + 4 KiB x input length. Seam-free infinite loops are caught by a wall-clock stall watchdog confirmed by an isolated re-run.",
+         "Seeded simulation of a damaged stored stream read by an arbitrary caller: valid and hostile-producer documents, correctly framed binary values whose fields take extreme values (exponents, coefficients, offsets, IDs, max_id, length relations that wrap around 64 bits), deep nesting, hit by 0..3 stored-medium faults (bit flip, byte set, zeroed / lost / duplicated / spliced block, truncation, length / exponent / ID fields replaced by boundary values through the byte map, lengths off by a few), a per-document sweep of every nested container length plus and minus one, and every byte string of length <= 3 over a 24-byte alphabet; each driven by seeded random call sequences over all Reader methods, a traversal that reads and prints every scalar, navigating callers, Decoder.Decode to exhaustion and DecodeTo into a zoo of about 80 Go target types (prefilled ones included), under whole and chunked simulated delivery, with panic, reads-after-end, progress, allocation, worker-death (write-ahead + isolated re-run) and wall-clock watchdogs.",
+         "Returned errors are always acceptable (acceptance/rejection is C07). Allocation bound: 32 MiB + 4 KiB x input length. Seam-free infinite loops are caught by a wall-clock stall watchdog (30 s) confirmed by an isolated re-run with 4x the limit; minimisation runs in a child process.",
          "deterministic simulation with fault injection: stored-medium faults on seeded documents x seeded caller programs x simulated Source delivery, isolated worker processes with write-ahead cases and resource watchdogs",
-         "DESIGN.md section 3 C06"),
+         "DESIGN.md section 3 C06 and section 7"),
  "C19": ("fault_enumeration",
          "Seeded simulation of the io.Reader/io.Writer seams: for every generated document, every two-chunk split point, byte-at-a-time and seeded chunk plans are compared with whole delivery; a read failure is injected at every byte offset and a write failure at every Write call (sticky/transient; nothing, a prefix or all of the data accepted; several error identities). Exhaustive over fault positions per document; the document space is sampled from VERIF_SEED.",
          "Reference outcome is ion-go's own traversal over whole delivery; Go runtime and bufio trusted; strict reading of R2 (every fired read failure, one-time ones included, must be reported).",
          "deterministic simulation with fault injection: simulated Source/Sink, per-byte read-fault and per-call write-fault enumeration, explicit replay cases",
          "DESIGN.md section 3 C19"),
  "C08": ("exploration",
-         "Seeded navigation programs (skip, leave unread, step out after k children, refused calls) are run against the real Reader over whole and chunked simulated delivery and compared observation by observation with a reference cursor walking the tree of ion-go's own plain traversal. Seeded search over documents x programs x delivery schedules; every failure is an explicit replayable case.",
-         "Reference is ion-go's own plain full traversal (the property is stated relative to it); symbol tokens compared by text then SID.",
+         "Seeded navigation programs (skip, leave unread, step out after k children, refused calls, values read twice, a refused StepOut and one more Next after the end) are run against the real Reader over whole and chunked simulated delivery and compared observation by observation \u2014 whole symbol tokens, and the reader's answers between StepOut and the next Next included \u2014 with a reference cursor walking the tree of ion-go's own plain traversal. Documents: seeded text and binary documents (deeply nested ones, lobs beyond 64 KiB, long record streams) and symbol-table histories read with a catalog. A valid document that the plain traversal rejects but a merely skipping navigation reads cleanly is reported as navigation dependence.",
+         "Reference is ion-go's own plain full traversal (the property is stated relative to it), so a value ion-go decodes wrongly but consistently is not a C08 violation.",
          "deterministic simulation: seeded caller programs as the schedule, reference-cursor model, simulated Source delivery plans",
-         "DESIGN.md section 3 C08"),
+         "DESIGN.md section 3 C08 and section 7"),
  "C07": ("fault_enumeration",
          "On every generated valid document: truncation at every byte offset (torn tail of a crashed producer) and an enumerated catalogue of stored-medium / malformed-producer corruptions at every applicable site found through the renderer's byte map; a damaged stream is judged only when byte map / edit intent and the independent reference decoder agree it is certainly invalid; it is then traversed completely under whole and byte-at-a-time simulated delivery and must end in a non-nil, permanent error. Exhaustive per document up to 1500 bytes; longer documents get 600 sampled truncation offsets and 400 sampled catalogue edits.",
          "Trusted: renderer byte maps and ref/bin, ref/text (two independent witnesses for invalidity); lenient reading of 'non-nil Err'.",
          "deterministic simulation with fault injection: exhaustive per-document truncation and corruption catalogue on the stored medium, simulated Source delivery, independent invalidity oracle",
          "DESIGN.md section 3 C07"),
  "C10": ("exploration",
-         "Seeded histories of version markers, replacing and appending local symbol tables, imports and user values are rendered to binary and text, delivered under seeded delivery plans and read with catalogs in skewed states (exact, only newer, only older, missing; real ion.NewCatalog or a simulated repository); every observed symbol token, the binary reader's MaxID, the value count and the error expectation are compared with an executable symbol-context model.",
-         "Trusted: the symbol-context model (model/symctx.go) and the independent renderers; corners the statement does not pin down are not generated.",
+         "Seeded histories of version markers, replacing and appending local symbol tables (chains of up to 24 appends), imports (versions that sort differently as strings, colliding name/version pairs, ignored names, declared max_id absent, smaller, equal, larger, up to 2^40) and user values are rendered to binary and text, delivered under seeded delivery plans and read with catalogs in skewed states (exact, only newer, only older, missing; real ion.NewCatalog or a simulated repository); every observed symbol token, the binary reader's MaxID, the value count and the error expectation are compared with an executable symbol-context model.",
+         "Trusted: the symbol-context model (model/symctx.go) and the independent renderers; corners the statement does not pin down (listed in DESIGN.md appendix A) are not generated.",
          "deterministic simulation: seeded event histories x catalog version skew (simulated external party) x delivery schedule, executable reference model",
-         "DESIGN.md section 3 C10"),
+         "DESIGN.md section 3 C10 and section 7"),
  "C12": ("exploration",
-         "Seeded Writer call sequences (legal, misuse, reuse after Finish) on five writer configurations, fault-free twice and with one transient or sticky sink failure, checked call by call against a protocol automaton (stickiness of errors) and, when the final Finish returns nil, by independent spec-derived decoders against the automaton's value tree.",
-         "Trusted: ionsim ref/bin and ref/text decoders, the protocol automaton; documented-open program points only held to P/S/V1/D.",
+         "Seeded Writer call sequences (legal, misuse, reuse after Finish; deep, bulky, wide, length-boundary and learned-token variants) on five to seven writer configurations, fault-free twice and with one transient or sticky sink failure, checked call by call against a protocol automaton (stickiness of errors) and, when the final Finish returns nil, by independent spec-derived decoders against the automaton's value tree; plus the complete enumeration of all call sequences of length <= 4 over a 12-call alphabet on six configurations with a transient failure at every single write call. A case carries the programs the process ran just before it, so that state leaking between Writers replays.",
+         "Trusted: ionsim ref/bin and ref/text decoders, the protocol automaton; documented-open program points only held to P/S/V1/D. A Writer that refuses a legal call satisfies the property as stated.",
          "deterministic simulation with fault injection: seeded call-sequence programs, executable protocol automaton as reference model, simulated Sink failures, independent decoders",
-         "DESIGN.md section 3 C12"),
+         "DESIGN.md section 3 C12 and section 7"),
 }
 
 PENDING = ["C06", "C07", "C08", "C10", "C12", "C18"]
